@@ -51,6 +51,7 @@ void begin(const SchedConfig& cfg);
 int end();
 
 bool active();                       // calling thread is simulated
+void detach_current_thread();        // the calling thread leaves the simulation for good (sanitizer reporting)
 int self_id();                       // -1 if not simulated
 void set_role(const char* role);     // role of the calling thread
 void name_next_thread(const char* role); // role given to the next thread created by this thread
